@@ -46,12 +46,50 @@
     - Accesses through reflection, unsafe, cgo, third-party code, or from packages other than
       internal/actor, internal/future, internal/remoting are not inventoried; composite-literal field
       initialisers (construction before the object is shared) are counted but not treated as accesses.
-    - "No crash, tree not corrupted" are NOT proved here; they are searched for on the real code by the
-      stress harness (harness/cmd/race, built with -race): monitors data-race, fatal, panic, hang, tree.
+    - "No crash": see PART 3 for the four runtime failures that the inventory classifies; every other source of a
+      crash is searched for on the real code by the stress harness (harness/cmd/race, built with -race): monitors
+      data-race, fatal, panic, hang, tree.
 
-    This file holds statements only; the lemmas are in Race/LocksetProofs.v. *)
+    PART 2 - "without corrupting the actor tree" (theorems [C10_tree_*], machine Race/Tree.v). The three tables
+    that ARE the tree (System.actorContexts, Context.children, Context.state) and every code path that writes them
+    (Context.ActorOf, System.ActorOf, onKill / onRestart, checkAndMarkKilled, handleRestart, the zombie path,
+    cleanupIfNotRestarting, handleChildDeath, the dead-letter gate of HandleEnvelop) are modelled at the granularity
+    of the synchronisation the inventory above reports for them (one sync.Map operation, one childrenLock critical
+    section, one atomic operation = one step; everything between two such operations interleaves freely), for any
+    number of actors, threads, re-used names, any tree shape and EVERY schedule; kills, restarts, failed restarts and
+    the order of notices are nondeterministic. Proved: below every parent that is NOT DEAD - the root included - the tree is
+    never corrupted (in-flight form in every reachable state: a table entry is registered or in the course of its
+    release, a registered actor is in its parent's table or a spawn of it is in flight; at quiescence registry <->
+    children <-> parent agree exactly, so the root's table never keeps a dead context while the root is alive); below
+    every parent other than the root additionally: no registered actor has a dead parent, and a dead parent's table is
+    empty; for every parent: registry soundness, actorOfLock serialises root spawns, nobody ever deletes another
+    context's registration. Two defects of the root found with this machine are REPAIRED in /repo and kept as regression
+    scenarios of the harness: the stale root entry (an actor killed between appendActorContext and the insertion into
+    the root's table was inserted dead: b0e210b re-checks the registration inside the insertion's critical section -
+    the state word would not do, a restart passes through `killed`; monitor tree-stale-root-child) and the orphan (the
+    root dying between the state check and the registration: 6438ab6; monitor tree-orphan-under-dead-root). NOT proved
+    (why "_partial"): that an actor registered under an already dead ROOT disappears again (it is sent OnKill by the
+    spawner's re-read of the parent state; that it then terminates is a liveness matter), and a DEAD root's table may
+    keep the entry of such a late child (nothing reads it).
+
+    PART 3 - "without crashing the process" (theorems [C10_panic_*], Race/Crash.v). The translator also inventories
+    every PANIC SITE of the three packages - unlock of an unlocked mutex, close of a closed channel, send on a closed
+    channel, assignment to an entry of a nil map (tracked map fields, their inner maps, local aliases) - with the guard
+    the code provides: the lock is in the must-hold set in the matching mode (deferred unlocks: held at the defer
+    statement and not released twice); the map is established non-nil on every path (fresh assignment, nil test whose
+    nil branch assigns a fresh map, `!ok` branch assigning a fresh map, a field every constructor initialises) and no
+    tracked map field is ever assigned anything but a fresh map; a close / send lies in the claimed phase of a
+    once-event. [C10_panic_sites_guarded] evaluates that discipline on the generated table; [C10_panic_close_sound]
+    is the one part that needs an argument: a channel closed only as the fire of one once-event by its claimant is
+    never closed twice and never sent on after the close - every table, every population, every schedule. LIMITS: nil
+    pointer dereferences, unchecked type assertions (Ask with a nil / foreign ActorRef panics on the caller: argument
+    validation), slice indexing, user panics (C08) and internal/guard's close(guardClosedSignal) (guarded by "own
+    OnKilled at most once", C06) are not classified; the guards are the translator's lexical must-analysis.
+
+    This file holds statements only; the lemmas are in Race/LocksetProofs.v, Race/TreeProofs.v, Race/CrashProofs.v. *)
 From Coq Require Import List NArith Bool String.
 From Vivid Require Import Race.Lockset Race.LocksetProofs Race.Report Generated.AccessTable.
+From Vivid Require Import Race.Tree Race.TreeInv Race.TreeProofs Race.Crash Race.CrashProofs.
 Import ListNotations.
 Local Open Scope N_scope.
 
@@ -119,6 +157,158 @@ Proof.
   exists s. split; [exact Hr|]. split; [rewrite H1; discriminate|exact H2].
 Qed.
 
+(** * PART 2 - the actor tree *)
+
+(** In EVERY reachable state of the tree machine - every root, parent function, path function (names may be re-used),
+    every number of actors and threads, every schedule, nothing needs to be quiescent - below every parent [p] other
+    than the root:
+    (1) an entry children[p][q] = c names a context of path q whose parent is p and which is still registered, or whose
+        release is in progress (its registry entry is deleted and its OnKilled notice to p is about to be sent, or is
+        waiting in p's mailbox);
+    (2) a registered context whose parent is p is in p's child table, or p's own goroutine is in the middle of
+        spawning it (between appendActorContext and the insertion);
+    (3) the parent of a registered context is not dead (state killed). *)
+Theorem C10_tree_below_every_actor_partial (root : aid) (par : aid -> option aid) (path_of : aid -> apath) :
+  (forall c, c <> root -> path_of c <> path_of root) -> par root = None ->
+  forall s p, treachable root par path_of s -> p <> root ->
+    (forall q c, ch_get q (t_children s p) = Some c ->
+        path_of c = q /\ par c = Some p /\
+        (t_reg s (path_of c) = Some c \/ t_pc s (Own c) = Released c \/ In c (t_notices s p))) /\
+    (forall c, t_reg s (path_of c) = Some c -> par c = Some p ->
+        ch_get (path_of c) (t_children s p) = Some c \/ t_pc s (Own p) = SpRegistered p c) /\
+    (forall c, t_reg s (path_of c) = Some c -> par c = Some p -> t_st s p <> Killed).
+Proof. exact (tree_nonroot_always root par path_of). Qed.
+
+(** at quiescence (every thread between operations, every termination notice handled) the tree is EXACTLY consistent
+    below every parent other than the root: registry <-> children <-> parent, both ways, and no registered context
+    under a dead parent *)
+Theorem C10_tree_quiescent_partial (root : aid) (par : aid -> option aid) (path_of : aid -> apath) :
+  (forall c, c <> root -> path_of c <> path_of root) -> par root = None ->
+  forall s p, treachable root par path_of s ->
+    (forall t, t_pc s t = Idle) -> (forall x, t_notices s x = []) -> p <> root ->
+    (forall q c, ch_get q (t_children s p) = Some c -> path_of c = q /\ par c = Some p /\ t_reg s (path_of c) = Some c) /\
+    (forall c, t_reg s (path_of c) = Some c -> par c = Some p -> ch_get (path_of c) (t_children s p) = Some c) /\
+    (t_st s p = Killed -> forall c, t_reg s (path_of c) = Some c -> par c <> Some p).
+Proof. exact (fun H1 H2 s p Hr Q1 Q2 => tree_nonroot_quiescent root par path_of H1 H2 s p Hr (conj Q1 Q2)). Qed.
+
+(** for EVERY parent, the root included, in every reachable state: the registry holds at most one context per path,
+    under its own path, never the root; a registered context is in its parent's table or a spawn of it is in flight;
+    the keys of a child table are the paths of the stored references, which are children of that parent *)
+Theorem C10_tree_registry_sound (root : aid) (par : aid -> option aid) (path_of : aid -> apath) :
+  (forall c, c <> root -> path_of c <> path_of root) -> par root = None ->
+  forall s, treachable root par path_of s ->
+    (forall q a, t_reg s q = Some a -> path_of a = q /\ a <> root) /\
+    (forall c p, t_reg s (path_of c) = Some c -> par c = Some p ->
+        ch_get (path_of c) (t_children s p) = Some c \/ exists t, t_pc s t = SpRegistered p c) /\
+    (forall p q c, ch_get q (t_children s p) = Some c -> path_of c = q /\ par c = Some p).
+Proof. exact (tree_all_always root par path_of). Qed.
+
+(** so at quiescence every registered top-level actor IS in the root's child table (this direction holds at the root) *)
+Theorem C10_tree_root_registered_in_table (root : aid) (par : aid -> option aid) (path_of : aid -> apath) :
+  (forall c, c <> root -> path_of c <> path_of root) -> par root = None ->
+  forall s, treachable root par path_of s -> (forall t, t_pc s t = Idle) -> (forall x, t_notices s x = []) ->
+    forall c, t_reg s (path_of c) = Some c -> par c = Some root -> ch_get (path_of c) (t_children s root) = Some c.
+Proof. exact (fun H1 H2 s Hr Q1 Q2 => tree_root_quiescent_half root par path_of H1 H2 s Hr (conj Q1 Q2)). Qed.
+
+(** actorOfLock: two threads are never inside a spawn on the root at the same time *)
+Theorem C10_tree_actorOfLock_serialises (root : aid) (par : aid -> option aid) (path_of : aid -> apath) :
+  (forall c, c <> root -> path_of c <> path_of root) -> par root = None ->
+  forall s t t' c c', treachable root par path_of s ->
+    (t_pc s t = SpChecked root c \/ t_pc s t = SpRegistered root c) ->
+    (t_pc s t' = SpChecked root c' \/ t_pc s t' = SpRegistered root c') -> t = t'.
+Proof. exact (fun H1 H2 s t t' c c' => tree_root_spawns_serialised root par path_of H1 H2 s t t' c c'). Qed.
+
+(** a context stays registered from its LoadOrStore until its own Delete: nobody deletes or overwrites the registration
+    of another context (actorContexts.Delete is by path and unconditional - the proof shows the path is always still
+    the deleter's own) *)
+Theorem C10_tree_registration_stable (root : aid) (par : aid -> option aid) (path_of : aid -> apath) :
+  (forall c, c <> root -> path_of c <> path_of root) -> par root = None ->
+  forall s a, treachable root par path_of s -> t_pub s a = true -> a <> root ->
+    t_reg s (path_of a) = Some a \/ (t_st s a = Killed /\ t_zombie s a = false /\ t_reg s (path_of a) <> Some a).
+Proof. exact (tree_registration_stable root par path_of). Qed.
+
+(** the same two clauses for EVERY parent that is not dead, the root included (the insertion into the child table
+    re-checks the registration inside the same childrenLock section: /repo b0e210b) - every reachable state *)
+Theorem C10_tree_every_live_parent_partial (root : aid) (par : aid -> option aid) (path_of : aid -> apath) :
+  (forall c, c <> root -> path_of c <> path_of root) -> par root = None ->
+  forall s p, treachable root par path_of s -> p <> root \/ t_st s p <> Killed ->
+    (forall q c, ch_get q (t_children s p) = Some c ->
+        path_of c = q /\ par c = Some p /\
+        (t_reg s (path_of c) = Some c \/ t_pc s (Own c) = Released c \/ In c (t_notices s p))) /\
+    (forall c, t_reg s (path_of c) = Some c -> par c = Some p ->
+        ch_get (path_of c) (t_children s p) = Some c \/ exists t, t_pc s t = SpRegistered p c).
+Proof. exact (tree_live_parent_always root par path_of). Qed.
+
+(** at quiescence registry, child table and parent agree EXACTLY below every parent that is not dead: the root's table
+    never keeps a dead context, every registered top-level actor is in it. (Not proved, see the header: that no actor stays
+    registered under a root that is already dead.) *)
+Theorem C10_tree_quiescent_every_live_parent_partial (root : aid) (par : aid -> option aid) (path_of : aid -> apath) :
+  (forall c, c <> root -> path_of c <> path_of root) -> par root = None ->
+  forall s p, treachable root par path_of s ->
+    (forall t, t_pc s t = Idle) -> (forall x, t_notices s x = []) -> p <> root \/ t_st s p <> Killed ->
+    (forall q c, ch_get q (t_children s p) = Some c -> path_of c = q /\ par c = Some p /\ t_reg s (path_of c) = Some c) /\
+    (forall c, t_reg s (path_of c) = Some c -> par c = Some p -> ch_get (path_of c) (t_children s p) = Some c).
+Proof. exact (fun H1 H2 s p Hr Q1 Q2 => tree_live_parent_quiescent root par path_of H1 H2 s p Hr (conj Q1 Q2)). Qed.
+
+(** the schedule that used to leave a dead context in the root's table (the recorded finding C10-root-stale-child, repaired
+    by b0e210b; the harness forces the same schedule on the real code) is still enabled step by step and now ends, quiescent,
+    with the root's table empty *)
+Theorem C10_tree_former_stale_child_schedule_repaired :
+  exists s, trun x_root x_par x_path w1_sched (tinit x_root) = Some s /\
+            ((forall t, t_pc s t = Idle) /\ (forall x, t_notices s x = [])) /\
+            ch_get 1 (t_children s x_root) = None /\ t_reg s (x_path 1) = None /\ t_st s 1 = Killed /\ t_st s x_root = Running.
+Proof. exact (ex_intro _ (w_run w1_sched) (conj (w_run_some w1_sched (eq_refl true <: w_ok w1_sched = true)) (conj w1_quiescent w1_repaired))). Qed.
+
+(** the hypotheses of the tree theorems are satisfiable, and by a non-trivial state: the instance satisfies both
+    assumptions, and a quiescent reachable state has a three-level tree root - 1 - 16 *)
+Example C10_tree_hypotheses_met :
+  (forall c, c <> x_root -> x_path c <> x_path x_root) /\ x_par x_root = None /\
+  exists s, treachable x_root x_par x_path s /\ quiescent s /\
+            ch_get 16 (t_children s 1) = Some 16 /\ t_reg s (x_path 16) = Some 16 /\ x_par 16 = Some 1.
+Proof.
+  split; [exact x_path_root|]. split; [exact x_par_root|]. exists e_state.
+  split; [exact e_reachable|]. split; [exact e_quiescent|]. destruct e_facts as (A & B & C & _). auto.
+Qed.
+
+(** * PART 3 - panic sites *)
+
+(** printed on every run: the panic sites that are not guarded (empty on a disciplined tree) *)
+Eval vm_compute in (map (lookup_name panic_names) (unguarded panic_table)).
+
+(** generic: for EVERY table of panic sites, every number of threads and objects and every schedule of the channel machine
+    (threads claim once-events - at most one claimant per event and object, for ever - and execute close / send sites where
+    their annotation is true; a close fires the event), if every channel site lies in the claimed phase of an event and all
+    channel sites of one channel class use the same event, then no reachable state has closed a closed channel or sent on a
+    closed channel *)
+Theorem C10_panic_close_sound (T : list psite) :
+  forallb psite_ok T && same_event T = true -> forall s, creachable T s -> cm_crashed s = false.
+Proof. exact (close_discipline_sound T). Qed.
+
+(** the table generated from the tree under test: every unlock site holds its lock, every map write / store / field assignment
+    has its non-nil guard, every close lies after the winning CompareAndSwap of its object's once-event (finite: the table is the bound) *)
+Theorem C10_panic_sites_guarded : panic_discipline_ok panic_table = true.
+Proof. exact (eq_refl true <: panic_discipline_ok panic_table = true). Qed.
+
+(** hence: no reachable state of the channel machine over the generated table has crashed *)
+Theorem C10_panic_no_double_close : forall s, creachable panic_table s -> cm_crashed s = false.
+Proof. exact (close_discipline_sound panic_table C10_panic_sites_guarded). Qed.
+
+(** the inventory is not empty where the code is known to have such sites (a translator that silently loses a kind would
+    make the discipline vacuous): at least one unlock site, one close site and one map-write site *)
+Theorem C10_panic_inventory_covers :
+  (0 <? count_kind (fun k => match k with KUnlock => true | _ => false end) panic_table) &&
+  (0 <? count_kind (fun k => match k with KClose => true | _ => false end) panic_table) &&
+  (0 <? count_kind (fun k => match k with KMapWrite => true | _ => false end) panic_table) = true.
+Proof. exact (eq_refl true). Qed.
+
+(** sharpness / non-vacuity: an undisciplined table is rejected and does crash; a disciplined one really closes its channel *)
+Theorem C10_panic_machine_can_crash :
+  panic_discipline_ok bad_close_table = false /\ exists s, creachable bad_close_table s /\ cm_crashed s = true.
+Proof. exact (conj (proj1 bad_close_rejected) bad_close_crashes). Qed.
+Example C10_panic_hypotheses_met :
+  panic_discipline_ok ok_close_table = true /\ exists s, creachable ok_close_table s /\ cm_closed s 18 0 = true /\ cm_crashed s = false.
+Proof. exact (conj ok_close_table_ok ok_close_happens). Qed.
+
 Print Assumptions C10_lockset_sound.
 Print Assumptions C10_annotations_stable.
 Print Assumptions C10_lock_exclusion.
@@ -126,3 +316,17 @@ Print Assumptions C10_inventory_covers.
 Print Assumptions C10_discipline.
 Print Assumptions C10_no_conflict.
 Print Assumptions C10_machine_can_race.
+Print Assumptions C10_tree_below_every_actor_partial.
+Print Assumptions C10_tree_quiescent_partial.
+Print Assumptions C10_tree_registry_sound.
+Print Assumptions C10_tree_root_registered_in_table.
+Print Assumptions C10_tree_actorOfLock_serialises.
+Print Assumptions C10_tree_registration_stable.
+Print Assumptions C10_tree_every_live_parent_partial.
+Print Assumptions C10_tree_quiescent_every_live_parent_partial.
+Print Assumptions C10_tree_former_stale_child_schedule_repaired.
+Print Assumptions C10_panic_close_sound.
+Print Assumptions C10_panic_sites_guarded.
+Print Assumptions C10_panic_no_double_close.
+Print Assumptions C10_panic_inventory_covers.
+Print Assumptions C10_panic_machine_can_crash.
